@@ -10,9 +10,9 @@ COQ_EXTRA = ['theories/Generated/K_gfx_selftest.vo', 'theories/Generated/K_gff_s
 MODEL = ('ExC17', ['c17_ops.ml', 'c17_main.ml'])
 MONITOR = ('MonC17', ['c17_ops.ml', 'c17_mon_main.ml'])
 SIZES = [8192, 4096, 256, 256, 4352]
-RULE = ('case = initial contents of the five regions + a history of 1-30 accessor calls (all 18 accessors), arguments '
+RULE = ('case = initial contents of the five regions + a history of 1-80 accessor calls (all 18 accessors), arguments '
         'concentrated on the edges (crossing the right/bottom edge by 0, 1, many cells; ids at 0/15/16/240/255; TRANSPARENT '
-        'pixels; ragged rows; None fields); implementation run on a real Game object, every returned value and the whole '
+        'pixels; ragged rows; blocks of 140 rows or columns, offsets up to 1000; None fields); implementation run on a real Game object, every returned value and the whole '
         'memory after the history compared with the extracted model (correspondence) and with Spec/PlainMem.v through '
         'holds_C17_seq (monitor); a separate stream of out-of-contract calls checks that model and implementation raise '
         'alike. evaluations = accessor calls; distinct+non-trivial = distinct (op kind, arguments) that either return a '
@@ -88,6 +88,17 @@ def _rows(rng, maxw, maxh, lo, hi, transparent=None):
     return '/'.join(lib.hx(r) for r in rows) if rows else '.'
 
 
+def _rows_big(rng, n, lo, hi, transparent=None):
+    """a block much larger than the sheet / map in one direction: n rows of 1-3 values or 1-3 rows of n values"""
+    def val():
+        return transparent if transparent is not None and rng.random() < 0.2 else rng.randrange(lo, hi + 1)
+    if rng.random() < 0.5:
+        rows = [bytes(val() for _ in range(rng.randrange(1, 4))) for _ in range(n)]
+    else:
+        rows = [bytes(val() for _ in range(n)) for _ in range(rng.randrange(1, 4))]
+    return '/'.join(lib.hx(r) for r in rows)
+
+
 def _opt(rng, hi):
     return 'N' if rng.random() < 0.3 else str(rng.choice([0, hi, rng.randrange(0, hi + 1)]))
 
@@ -98,6 +109,13 @@ def gen_op(rng, contract=True):
     ids = [0, 1, 14, 15, 16, 17, 127, 128, 239, 240, 241, 254, 255]
     if k == 'gs':
         return 'gs,%d,%d,%d' % (rng.choice(ids), rng.choice([1, 2, 3, 16, 17]), rng.choice([1, 2, 3, 16, 17]))
+    if k == 'ss' and rng.random() < 0.06:
+        # far offsets and blocks larger than the whole sheet (everything beyond the edges must be clipped)
+        return 'ss,%d,%d,%d,%s' % (rng.choice(ids), rng.choice([0, 5, 64, 119, 127, 128, 1000]),
+                                   rng.choice([0, 5, 64, 119, 127, 128, 1000]), _rows_big(rng, 140, 0, 15, 16))
+    if k == 'msr' and rng.random() < 0.06:
+        return 'msr,%d,%d,%s' % (rng.choice([0, 1, 100, 127, 128, 1000]), rng.choice([0, 1, 31, 32, 63, 64, 1000]),
+                                 _rows_big(rng, 140, 0, 255))
     if k == 'ss':
         return 'ss,%d,%d,%d,%s' % (rng.choice(ids + [rng.randrange(256)]), rng.choice([0, 0, 1, 3, 7, 8, 9]),
                                    rng.choice([0, 0, 1, 3, 7, 8, 9]), _rows(rng, 20, 20, 0, 15, 16))
@@ -147,7 +165,7 @@ def generate(tier, rng):
     n = 350 if tier == 'quick' else 8000
     kinds = ['random', 'random', 'zero', 'ff', 'ramp']
     for i in range(n):
-        ln = rng.choice([1, 2, 5, 12, 30])
+        ln = rng.choice([1, 2, 5, 12, 30, 30, 80])
         yield {'hasgfx': 1, 'mem': [lib.hx(r) for r in _mem(rng, rng.choice(kinds))],
                'ops': [gen_op(rng) for _ in range(ln)]}
     for i in range(60 if tier == 'quick' else 600):
